@@ -408,6 +408,18 @@ static void op_orphan(World &W, const Json &op) {
     if (d > 0) { W.live_descs.insert(d); W.orphan_blocks += (long) own::live() - (long) live0; W.fault("ORPHAN_INSTANCE"); }
 }
 
+// the availability query for a backend id, asked while instances of it (or of others) are alive: a rarely used call that
+// opens and closes the backend's plug-in
+static void op_avail(World &W, const Json &op) {
+    int id = op["id"].in(0);
+    cur().api = "backend_available";
+    int rc = liberasurecode_backend_available((ec_backend_id_t) id);
+    W.trace.add("avail", rc);
+    bool installed = id == EC_BACKEND_NULL || id == EC_BACKEND_FLAT_XOR_HD || id == EC_BACKEND_LIBERASURECODE_RS_VAND || be_is_isal(id);
+    if (installed && rc != 1) W.viol("C13 C14 C19", "backend_available/installed-backend-reported-missing", "id " + std::to_string(id) + " returned " + std::to_string(rc));
+    W.fault("AVAILABILITY_QUERY");
+}
+
 void exec_op_misc(World &W, const Json &op, const std::string &kind) {
     if (kind == "MASS") { op_mass(W, op); return; }
     if (kind == "BADCALL") op_badcall(W, op);
@@ -417,5 +429,6 @@ void exec_op_misc(World &W, const Json &op, const std::string &kind) {
     else if (kind == "ISAL") op_isal(W, op);
     else if (kind == "DESTROY_DEAD") op_destroy_dead(W, op);
     else if (kind == "ORPHAN") op_orphan(W, op);
+    else if (kind == "AVAIL") op_avail(W, op);
     else W.probe("op.unknown");
 }
